@@ -37,6 +37,7 @@ type Task struct {
 type Workload struct {
 	MaxProcs   int
 	Yield      int // call runtime.Gosched at every Yield-th ReadToken (0 = never)
+	ColdFirst  bool `json:",omitempty"` // the concurrent run comes first, the sequential reference after it
 	Goroutines [][]Task
 }
 
@@ -90,6 +91,7 @@ type task struct {
 type workload struct {
 	MaxProcs   int
 	Yield      int
+	ColdFirst  bool
 	Goroutines [][]task
 }
 
@@ -158,12 +160,19 @@ func main() {
 		}
 	}
 	d.WriteString(`	_ = y
-	// sequential reference run in the same process
+	// The sequential reference run happens in the same process: before the concurrent run, or -
+	// ColdFirst - after it, so that the goroutines meet packages nothing has touched yet (state
+	// that is set up lazily on first use would otherwise be warm before the first goroutine starts).
 	want := make([][]string, len(w.Goroutines))
-	for g, ts := range w.Goroutines {
-		for _, t := range ts {
-			want[g] = append(want[g], run(t))
+	sequential := func() {
+		for g, ts := range w.Goroutines {
+			for _, t := range ts {
+				want[g] = append(want[g], run(t))
+			}
 		}
+	}
+	if !w.ColdFirst {
+		sequential()
 	}
 	got := make([][]string, len(w.Goroutines))
 	var wg sync.WaitGroup
@@ -181,6 +190,9 @@ func main() {
 	}
 	close(start)
 	wg.Wait()
+	if w.ColdFirst {
+		sequential()
+	}
 	var mism []string
 	for g := range want {
 		for i := range want[g] {
@@ -256,7 +268,7 @@ func genCase(rt *rapid.T, nWork int) *Case {
 		}
 	}
 	for k := 0; k < nWork; k++ {
-		w := &Workload{MaxProcs: []int{2, 8, 16}[k%3], Yield: []int{0, 1, 3, 7}[ri(rt, 0, 3, "yield")]}
+		w := &Workload{MaxProcs: []int{2, 8, 16}[k%3], Yield: []int{0, 1, 3, 7}[ri(rt, 0, 3, "yield")], ColdFirst: ri(rt, 0, 2, "coldfirst") != 0}
 		nG := ri(rt, 2, 32, "ngor")
 		same := ri(rt, 0, nAll-1, "same") // package run by at least two goroutines
 		switch ri(rt, 0, 3, "deepwork") {
@@ -447,7 +459,7 @@ func head(s string, n int) string {
 func TestC18(t *testing.T) {
 	run := ev.Start("C18")
 	defer run.Finish(t)
-	run.Rule = "sets of 2-4 generated parser packages, one nesting grammar with an @error production driven with inputs nested 60-95 deep that contain errors whose recovery drops tokens, plus 1-2 lexer-only packages with up to 3 nested modes (push/pop) (different grammars; every second one with @error recovery, two of three with _onBounds; each with its generated lexer state machine) linked into ONE program built with -race; workloads of 2-32 goroutines released by a barrier, each running 2-10 tasks (parse of a sentence or mutant through the generated parser, or lexing a text through the real simplelexer + generated state machine), at least two goroutines starting on the same package, GOMAXPROCS in {2,8,16}, runtime.Gosched injected at every 1st/3rd/7th ReadToken; " +
+	run.Rule = "sets of 2-4 generated parser packages, one nesting grammar with an @error production driven with inputs nested 60-95 deep that contain errors whose recovery drops tokens, plus 1-2 lexer-only packages with up to 3 nested modes (push/pop) (different grammars; every second one with @error recovery, two of three with _onBounds; each with its generated lexer state machine) linked into ONE program built with -race; workloads of 2-32 goroutines released by a barrier, each running 2-10 tasks (parse of a sentence or mutant through the generated parser, or lexing a text through the real simplelexer + generated state machine), at least two goroutines starting on the same package, GOMAXPROCS in {2,8,16}, runtime.Gosched injected at every 1st/3rd/7th ReadToken; in two of three workloads the concurrent run comes FIRST in its process and the sequential reference run after it (packages are cold when the goroutines start, so lazily initialised shared state is met concurrently); " +
 		"oracle: no report from the race detector (GORACE=halt_on_error) and every task's result (ok, errors, first blamed token, result tree, event log / token stream) equals the sequential run of the same workload in the same process; " +
 		"non-trivial = workload where >=2 goroutines use the same package, >=2 packages are used and a recovery-capable parser runs; distinct by workload"
 	run.Assumptions = []string{"the schedule is not owned by the harness: assurance rests on the race detector's happens-before analysis plus result comparison on the schedules that happened"}
